@@ -11,7 +11,7 @@ V = "/verif"
 m = json.load(open(V + "/MANIFEST.json"))
 kf = json.load(open(V + "/known_findings.json"))["findings"]
 modules = {'codec': 'lib/Chars, CodecOps, Codec, CodecBuild, trace/CodecTrace', 'dates': 'lib/Calendar, DatesOps, Dates, trace/DatesTrace',
-           'datebounds': 'DateBounds, trace/DateBoundsTrace', 'datecompare': 'DateCompareOps, DateCompare, trace/DateCompareTrace',
+           'datebounds': 'DateBounds, trace/DateBoundsTrace', 'datecompare': 'DateCompareRel, DateCompareOps, DateCompare, apalache/DateCompareInd, trace/DateCompareTrace',
            'nodeheap': 'NodeHeapOps, NodeHeap, trace/NodeHeapTrace', 'mergedocs': 'MergeDocsOps, MergeDocs, trace/MergeDocsTrace',
            'matching': 'MatchingOps, MatchingLogOps, Matching (PlusCal), trace/MatchingTrace', 'similarity': 'SimilarityOps, Similarity, trace/SimilarityTrace',
            'document': 'DocumentOps, Document, trace/DocumentTrace', 'commands': 'CommandsOps, Commands, trace/CommandsTrace',
